@@ -69,7 +69,7 @@ pub fn classify(m: &RefMsg) -> CIn {
             Ok(Body::Command { name, tx, args, .. }) => match name.as_str() {
                 "_result" => CIn::Result { tx: integral_u32(tx), raw_tx: tx, sid: args.first().and_then(|v| v.as_num()).and_then(integral_u32) },
                 "_error" => CIn::Error { tx: integral_u32(tx), raw_tx: tx },
-                "onStatus" => CIn::OnStatus { code: args.first().and_then(|a| a.get("code")).and_then(|c| c.as_str()).map(|s| s.to_string()) },
+                "onStatus" => CIn::OnStatus { code: args.first().and_then(|a| a.get("code")).and_then(|c| c.as_str()).map(|s| s.to_string()), msid: m.msid },
                 _ => CIn::Other,
             },
             _ => CIn::Other,
@@ -175,6 +175,8 @@ pub struct World {
     deferred: Option<Violation>,
     /// transactions whose answer made a call fail: the peer does not mention them again
     dead_tx: std::collections::BTreeSet<u32>,
+    /// (stream offset at which the message ends, transaction id) of every answer sent so far
+    answers_sent: Vec<(u64, u32)>,
 }
 
 fn viol(ctx: &Ctx, class: &str, msg: String) -> Violation {
@@ -184,9 +186,44 @@ fn viol(ctx: &Ctx, class: &str, msg: String) -> Violation {
 const KEYS: [&str; 3] = ["key", "cam1", "str\u{e9}am"];
 
 impl World {
+    /// Like `push`, but a message of several chunks is sometimes interrupted by a complete
+    /// other message on another chunk stream (RTMP allows the chunks of different chunk streams
+    /// to interleave; the interloper is a ping request, which every state answers).
+    fn push_interleaved(&mut self, ctx: &mut Ctx, m: &RefMsg, csid: u32, fmt: u8) {
+        let chunk = self.enc.chunk_size.max(1) as usize;
+        if m.payload.len() <= chunk || m.payload.len() / chunk > 5000 || !ctx.ch.chance("op.arg.interleave", 1, 5) {
+            self.push(m, csid, fmt);
+            return;
+        }
+        let total_chunks = (m.payload.len() + chunk - 1) / chunk;
+        let at = 1 + ctx.ch.draw("op.arg.interleaveat", (total_chunks - 1) as u64) as usize;
+        let mut out = Vec::new();
+        let mut cur = crate::refs::chunk::EncCursor { csid, msg: m.clone(), sent: 0, started: false };
+        self.enc.start(&mut out, &mut cur, fmt);
+        let mut sent_chunks = 1usize;
+        while !cur.done() {
+            if sent_chunks == at {
+                let ping = msg::user_control(m.ts, 6, ctx.ch.draw("op.arg.pingts", 1 << 32) as u32, None);
+                let icsid = if csid == 2 { 7 } else { 2 };
+                let f = self.enc.best_format(icsid, &ping);
+                self.enc.encode_message(&mut out, icsid, &ping, f);
+                ctx.probe("peer.interleaved_chunk_streams");
+                ctx.tr(|| format!("  peer: (ping request on csid {} between chunks {} and {} of the next message)", icsid, at, at + 1));
+            }
+            self.enc.cont(&mut out, &mut cur);
+            sent_chunks += 1;
+        }
+        self.push_raw(&out);
+    }
+
     fn push(&mut self, m: &RefMsg, csid: u32, fmt: u8) {
         let mut out = Vec::new();
         self.enc.encode_message(&mut out, csid, m, fmt);
+        self.push_raw(&out);
+    }
+
+    fn push_raw(&mut self, out: &[u8]) {
+        let out = out.to_vec();
         self.link.push(&out);
         if self.history.len() < 4096 {
             self.history.extend_from_slice(&out);
@@ -471,7 +508,10 @@ impl World {
         let f = opts[ctx.ch.draw("op.arg.fmt", opts.len() as u64) as usize];
         ctx.tr(|| format!("  peer: {:?} [{}] csid {} fmt {}", classify(&m), m.brief(), csid, f));
         ctx.ev(120, m.type_id as u64, m.payload.len() as u64);
-        self.push(&m, csid, f);
+        self.push_interleaved(ctx, &m, csid, f);
+        if let CIn::Result { tx: Some(t), .. } | CIn::Error { tx: Some(t), .. } = classify(&m) {
+            self.answers_sent.push((self.link.head + self.link.available() as u64, t));
+        }
         self.peer_msgs += 1;
     }
 
@@ -538,7 +578,14 @@ impl World {
                 // acknowledgement can have been serialized and lost with the discarded results.
                 let single = last_in.len() == 1 && self.cli.c.in_tap_clean() && !self.cli.c.peer_window_seen;
                 let class_ok = single && (self.post_err == 1 || matches!(last_in[0], CIn::Result { .. } | CIn::Error { .. } | CIn::OnStatus { .. } | CIn::Audio { .. } | CIn::Video { .. } | CIn::MetaData { .. }));
-                if class_ok && ctx.ch.chance("op.arg.goon", 1, 2) {
+                // whether the failed answer has spent its transaction the statement does not say:
+                // go on only if no further answer to the same transaction is already under way
+                let head = self.link.head;
+                let answered_again = match last_in.first() {
+                    Some(CIn::Result { tx: Some(t), .. }) | Some(CIn::Error { tx: Some(t), .. }) => self.answers_sent.iter().any(|(end, t2)| t2 == t && *end > head),
+                    _ => false,
+                };
+                if class_ok && !answered_again && ctx.ch.chance("op.arg.goon", 1, 2) {
                     self.cli.c.closed = false;
                     self.cli.c.check_ack = false;
                     if self.post_err == 0 {
@@ -882,6 +929,7 @@ pub fn build(ctx: &mut Ctx, mode: FMode) -> Result<World, Violation> {
         post_err: 0,
         deferred: None,
         dead_tx: std::collections::BTreeSet::new(),
+        answers_sent: Vec::new(),
     })
 }
 
